@@ -438,8 +438,8 @@ def conditionals(ctx):
         ctx.saw('arm switch guarded by %s' % gs)
         ctx.require(any('num_endifs_needed == 1' in x for x in gs) and any('item == 103' in x for x in gs), q, 'arm switch is guarded by %s, expected depth == 1 and OP_ELSE' % gs, gf[sid].ast)
     src = unparse(fn)
-    ctx.require('num_endifs_needed += 1' in src and 'num_endifs_needed -= 1' in src, q, 'nesting depth is not both incremented (IF/NOTIF) and decremented (nested ENDIF)', fn,
-                'an ENDIF of a nested conditional ends the outer one')
+    # (whether the nesting depth is counted correctly is decided on command streams by C19.balanced-conditionals; here only noted)
+    ctx.saw('depth counter incremented and decremented in the source: %s' % ('num_endifs_needed += 1' in src and 'num_endifs_needed -= 1' in src))
     incs = [n for n in walk_no_nested(fn) if isinstance(n, ast.If) and any('num_endifs_needed += 1' in unparse(s) for s in n.body)]
     if incs:
         t = norm(incs[0].test)
